@@ -12,11 +12,10 @@ Lemma ndone_app a b : ndone (a ++ b) = (ndone a + ndone b)%nat.
 Proof. induction a as [|[]]; cbn [ndone app]; lia. Qed.
 Lemma ndone_fop cb : ndone (map FOp cb) = O.
 Proof. induction cb; cbn; auto. Qed.
-Lemma ndone_frames run l :
-  ndone (flat_map (fun e : N * option (list op) => match snd e with
-        | Some cb => FDiscLog (fst e) run :: map FOp cb | None => [] end) l) = O.
+Lemma ndone_frames nulls run l :
+  ndone (disc_frames nulls run l) = O.
 Proof.
-  induction l as [|[? [cb|]] l IH]; cbn [flat_map snd fst]; auto.
+  unfold disc_frames in *. induction l as [|[? [cb|]] l IH]; cbn [flat_map snd fst]; auto.
   rewrite ndone_app. cbn [ndone]. rewrite ndone_fop. auto.
 Qed.
 
@@ -191,7 +190,7 @@ Lemma step_A s f ag s' ag' :
   InvA s (f :: ag) -> h_destroying s = false -> step s f ag = (s', ag') -> InvA s' ag'.
 Proof.
   intros HA Hnd H.
-  destruct f as [[cb|full cb| | |r|]| | | |]; cbn [step do_op] in H; rewrite ?Hnd in H; cbn [negb andb] in H;
+  destruct f as [[cb|full nl cb| | |r|]| | | |]; cbn [step do_op] in H; rewrite ?Hnd in H; cbn [negb andb] in H;
     rewrite ?andb_true_r in H; unfold InvA in HA; cbn [ndone] in HA.
   - destruct (s_max s <=? len (s_queue s)).
     + inversion H; subst. unfold InvA. cbn. rewrite ndone_app, ndone_fop. exact HA.
@@ -264,7 +263,7 @@ Proof.
 Qed.
 Lemma step_hd s f ag s' ag' : step s f ag = (s', ag') -> h_destroying s' = h_destroying s.
 Proof.
-  intros H. destruct f as [[cb|full cb| | |r|]| | | |]; cbn [step do_op] in H.
+  intros H. destruct f as [[cb|full nl cb| | |r|]| | | |]; cbn [step do_op] in H.
   - destruct (s_max s <=? len (s_queue s)).
     + inversion H; subst; reflexivity.
     + apply take_next_hd in H. exact H.
@@ -320,7 +319,7 @@ Lemma step_AD s f ag s' ag' :
   AD s' /\ dag ag' /\ dend s' ag'.
 Proof.
   intros Hd (Hp & Hl & Hc & Hf) Hdag Hend H. unfold dag in Hdag. inversion Hdag as [|? ? Hdf Hdag']; subst.
-  destruct f as [[cb|full cb| | |r|]| | | |]; cbn in Hdf; try contradiction; cbn [step do_op] in H;
+  destruct f as [[cb|full nl cb| | |r|]| | | |]; cbn in Hdf; try contradiction; cbn [step do_op] in H;
     rewrite ?Hd in H; cbn [negb andb] in H; rewrite ?andb_false_r in H.
   - assert (Ht : exists pre, ag = pre ++ [FDestroy]) by (eapply dend_tail; [|exact Hend]; discriminate).
     destruct (s_max s <=? len (s_queue s)).
